@@ -215,7 +215,8 @@ def main(argv):
             samples.append({"rule": r.rule, "report": rep.to_json()})
     meta = registry.PROPS[pid]
     cov = {
-        "explanation": meta["explanation"],
+        "explanation": meta["explanation"] + ("" if all(r.rule in meta["explanation"] for r in results) else
+                                               " Further rules applied: " + " ".join("%s: %s." % (r.rule, r.title) for r in results if r.rule not in meta["explanation"])),
         "rule": "static rule instances over the resolved program (HIR/MIR facts extracted by /verif/driver from the current tree); "
                 "an instance is one site/row/obligation a rule examined; non-trivial = the rule had a condition to check there",
         "evaluations": max(n_inst, 1),
